@@ -13,7 +13,7 @@ CONSTANTS
  UTls = {"", "insecure", "disabled"}
  UCred = {"none", "up1", "tok1", "h1"}
  UHostname = {"", "alt.test"}
- UMirrors = {""}
+ UMirrors = {"", "m1.test"}
  UPrefix = {""}
  UDefTls = {""}
  UDefCred = {"up2", "h2"}
